@@ -4,6 +4,7 @@ import (
 	"fmt"
 	"go/ast"
 	"go/types"
+	"sort"
 )
 
 // visitor implements ast.Visitor and collects instances of generic types and
@@ -231,8 +232,15 @@ func (c *Collector) Scan(info *types.Info, pkg *types.Package, files ...*ast.Fil
 // This should only be called after all the files are scanned.
 func (c *Collector) Finish() {
 	for !c.Instances.allExhausted() {
-		for pkgPath, instances := range *c.Instances {
-			c.propagate(pkgPath, instances)
+		// Visit the packages in a fixed order: the order in which instances are
+		// discovered determines their ids, which end up in the generated code.
+		pkgPaths := make([]string, 0, len(*c.Instances))
+		for pkgPath := range *c.Instances {
+			pkgPaths = append(pkgPaths, pkgPath)
+		}
+		sort.Strings(pkgPaths)
+		for _, pkgPath := range pkgPaths {
+			c.propagate(pkgPath, (*c.Instances)[pkgPath])
 		}
 	}
 }
